@@ -85,29 +85,107 @@ func (t *c14CV) Build() value.Value {
 		for i, it := range t.Items {
 			vals[i] = it.Build()
 		}
-		mk := func(hi int) value.Map {
-			lm := listMap.New[value.Value](hi)
-			for i := 0; i < hi; i++ {
-				lm = lm.Append(t.Keys[i], vals[i])
-			}
-			return value.NewMap(lm)
-		}
-		n := len(t.Keys)
-		switch t.Repr {
-		case "real":
-			rm := value.RealMap{}
-			for i, k := range t.Keys {
-				rm[k] = vals[i]
-			}
-			return value.NewMap(rm)
-		case "put":
-			if n > 0 {
-				return mustEval("m.put(k,v)", []string{"m", "k", "v"}, mk(n-1), value.String(t.Keys[n-1]), vals[n-1])
-			}
-		}
-		return mk(n)
+		return c14BuildMap(t.Repr, t.Keys, vals)
 	}
 	panic("bad kind " + t.Kind)
+}
+
+// the map storage representations; every one denotes exactly the map keys[i] -> vals[i].
+// The replacement maps of the replace representations also carry "phantom" keys (c14Phantom*) that the
+// original does not have: replace ignores them, so they must never be visible.
+var c14MapReprs = []string{"listmap", "real", "put", "putchain", "merge", "replace", "replace-all", "replace2", "replace10", "funcmap", "eval", "merge-replace"}
+
+const c14PhantomKey = "ph"
+
+var c14PhantomVal = value.Int(3)
+
+func c14ListMap(keys []string, vals []value.Value, lo, hi int) value.Map {
+	lm := listMap.New[value.Value](hi - lo)
+	for i := lo; i < hi; i++ {
+		lm = lm.Append(keys[i], vals[i])
+	}
+	return value.NewMap(lm)
+}
+
+func c14BuildMap(repr string, keys []string, vals []value.Value) value.Value {
+	n := len(keys)
+	dummy := value.String("\x00dummy")
+	// m.replace(o->r): the original holds dummies for the keys from index lo on, r the real values + phantom keys
+	replace := func(m value.Map, lo int) value.Value {
+		lm := listMap.New[value.Value](n - lo + 2)
+		lm = lm.Append(c14PhantomKey, c14PhantomVal)
+		for i := lo; i < n; i++ {
+			lm = lm.Append(keys[i], vals[i])
+		}
+		lm = lm.Append(c14PhantomKey+"2", dummy)
+		return mustEval("m.replace(o->r)", []string{"m", "r"}, m, value.NewMap(lm))
+	}
+	withDummies := func(lo int) value.Map {
+		vs := append([]value.Value{}, vals...)
+		for i := lo; i < n; i++ {
+			vs[i] = dummy
+		}
+		return c14ListMap(keys, vs, 0, n)
+	}
+	switch repr {
+	case "real":
+		rm := value.RealMap{}
+		for i, k := range keys {
+			rm[k] = vals[i]
+		}
+		return value.NewMap(rm)
+	case "put":
+		if n > 0 {
+			return mustEval("m.put(k,v)", []string{"m", "k", "v"}, c14ListMap(keys, vals, 0, n-1), value.String(keys[n-1]), vals[n-1])
+		}
+	case "putchain":
+		var m value.Value = c14ListMap(keys, vals, 0, 0)
+		for i := range keys {
+			m = mustEval("m.put(k,v)", []string{"m", "k", "v"}, m, value.String(keys[i]), vals[i])
+		}
+		return m
+	case "merge":
+		return mustEval("a+b", []string{"a", "b"}, c14ListMap(keys, vals, 0, n/2), c14ListMap(keys, vals, n/2, n))
+	case "replace": // the last key is replaced, the others come from the original
+		lo := n - 1
+		if lo < 0 {
+			lo = 0
+		}
+		return replace(withDummies(lo), lo)
+	case "replace-all":
+		return replace(withDummies(0), 0)
+	case "replace2": // two nested replaces, both with phantom keys
+		return replace(replace(withDummies(0), n/2).(value.Map), 0)
+	case "replace10": // ten nested replaces: the chain is flattened
+		var m value.Value = withDummies(0)
+		for i := 0; i < 10; i++ {
+			m = replace(m.(value.Map), 0)
+		}
+		return m
+	case "funcmap":
+		idx := map[string]int{}
+		for i, k := range keys {
+			idx[k] = i
+		}
+		ff := value.NewFuncMapFactory[value.Value](func(_ value.Value, key string) (value.Value, bool) {
+			i, ok := idx[key]
+			if !ok {
+				return nil, false
+			}
+			return vals[i], true
+		}, keys...)
+		return ff.Create(value.Int(0))
+	case "eval":
+		return mustEval("(a+b).eval()", []string{"a", "b"}, c14ListMap(keys, vals, 0, n/2), c14ListMap(keys, vals, n/2, n))
+	case "merge-replace":
+		vs := append([]value.Value{}, vals...)
+		for i := n / 2; i < n; i++ {
+			vs[i] = dummy
+		}
+		m := mustEval("a+b", []string{"a", "b"}, c14ListMap(keys, vals, 0, n/2), c14ListMap(keys, vs, n/2, n))
+		return replace(m.(value.Map), n/2)
+	}
+	return c14ListMap(keys, vals, 0, n)
 }
 
 // the un-evaluated list representations: every one denotes exactly the list of items.
@@ -124,10 +202,82 @@ func c14AllListReprs() []string {
 	return append(rs, "map:eager")
 }
 
+// pipelines "p:<source>/<stage>/<stage>...": an un-evaluated lazy pipeline denoting exactly the list of items.
+//   sources: eager (literal), lazy (sized, map over the literal), numbers (numbers(k).map(i->l[i]): sized)
+//   stages (all the identity on the content): skip-2 skip-1 skip0 top-1 topeq topmore (n = -2,-1,0 / -1,size,size+1),
+//   map number iir accept compact revrev (reverse twice) plus (+ [])
+var c14PipeSources = []string{"eager", "lazy", "numbers"}
+var c14PipeCuts = []string{"skip-2", "skip-1", "skip0", "top-1", "topeq", "topmore"}
+var c14PipeTops = []string{"map", "number", "iir", "accept", "compact", "revrev", "plus"}
+
+func c14PipelineReprs() []string {
+	var rs []string
+	k := 0
+	for _, src := range c14PipeSources {
+		for _, cut := range c14PipeCuts {
+			rs = append(rs, "p:"+src+"/"+cut)
+			// two size-handling stages on top of every cut, rotating through all of them
+			rs = append(rs, "p:"+src+"/"+cut+"/"+c14PipeTops[k%len(c14PipeTops)])
+			rs = append(rs, "p:"+src+"/"+cut+"/"+c14PipeTops[(k+3)%len(c14PipeTops)]+"/"+c14PipeTops[(k+5)%len(c14PipeTops)])
+			k++
+		}
+	}
+	return rs
+}
+
+func c14BuildPipeline(spec string, items []value.Value) value.Value {
+	l1 := []string{"l"}
+	ln := []string{"l", "n"}
+	parts := strings.Split(spec, "/")
+	var v value.Value = value.NewList(items...)
+	switch parts[0] {
+	case "lazy":
+		v = mustEval("l.map(e->e)", l1, v)
+	case "numbers":
+		v = mustEval("numbers(n).map(i->l[i])", ln, v, value.Int(len(items)))
+	}
+	for _, stage := range parts[1:] {
+		switch stage {
+		case "skip-2":
+			v = mustEval("l.skip(n)", ln, v, value.Int(-2))
+		case "skip-1":
+			v = mustEval("l.skip(n)", ln, v, value.Int(-1))
+		case "skip0":
+			v = mustEval("l.skip(n)", ln, v, value.Int(0))
+		case "top-1":
+			v = mustEval("l.top(n)", ln, v, value.Int(-1))
+		case "topeq":
+			v = mustEval("l.top(n)", ln, v, value.Int(len(items)))
+		case "topmore":
+			v = mustEval("l.top(n)", ln, v, value.Int(len(items)+1))
+		case "map":
+			v = mustEval("l.map(e->e)", l1, v)
+		case "number":
+			v = mustEval("l.number((i,e)->e)", l1, v)
+		case "iir":
+			v = mustEval("l.iir(x->x,(item,last)->item)", l1, v)
+		case "accept":
+			v = mustEval("l.accept(x->true)", l1, v)
+		case "compact":
+			v = mustEval("l.compact((a,b)->false)", l1, v)
+		case "revrev":
+			v = mustEval("l.reverse().reverse()", l1, v)
+		case "plus":
+			v = mustEval("l+e", []string{"l", "e"}, v, value.NewList())
+		default:
+			panic("bad pipeline stage " + stage)
+		}
+	}
+	return v
+}
+
 func c14BuildList(repr string, items []value.Value) value.Value {
 	dummy := value.String("\x00dummy")
 	l1 := []string{"l"}
 	ln := []string{"l", "n"}
+	if spec, ok := strings.CutPrefix(repr, "p:"); ok {
+		return c14BuildPipeline(spec, items)
+	}
 	if rest, ok := strings.CutPrefix(repr, "map:"); ok {
 		return mustEval("l.map(e->e)", l1, c14BuildList(rest, items))
 	}
@@ -167,16 +317,50 @@ func c14BuildList(repr string, items []value.Value) value.Value {
 	return value.NewList(items...)
 }
 
-// the same abstract value with every list down to nesting depth 2 in representation repr
+// the same abstract value with every list (repr "<list representation>") or every map (repr
+// "m=<map representation>") down to nesting depth 2 in the given representation
 func (t *c14CV) withRepr(repr string, depth int) *c14CV {
 	c := *t
-	if t.Kind == "list" && depth <= 2 {
-		c.Repr = repr
+	mrep, isMap := strings.CutPrefix(repr, "m=")
+	if depth <= 2 {
+		if t.Kind == "list" && !isMap {
+			c.Repr = repr
+		}
+		if t.Kind == "map" && isMap {
+			c.Repr = mrep
+		}
 	}
 	c.Items = make([]*c14CV, len(t.Items))
 	for i, it := range t.Items {
 		c.Items[i] = it.withRepr(repr, depth+1)
 	}
+	return &c
+}
+
+func (t *c14CV) hasMapWithin(depth int) bool {
+	if t.Kind == "map" {
+		return true
+	}
+	if depth >= 2 {
+		return false
+	}
+	for _, it := range t.Items {
+		if it.hasMapWithin(depth + 1) {
+			return true
+		}
+	}
+	return false
+}
+
+// the opponent of a map for the phantom key of the replace representations: same size, key number k
+// replaced by the phantom key with the phantom value
+func (t *c14CV) phantomOpponent(k int) *c14CV {
+	c := *t
+	c.Keys = append([]string{}, t.Keys...)
+	c.Items = append([]*c14CV{}, t.Items...)
+	c.Keys[k] = c14PhantomKey
+	c.Items[k] = c14CInt(3)
+	c.Repr = "listmap"
 	return &c
 }
 
@@ -677,7 +861,7 @@ func (r *c14Run) record(id int, typ string, defaultSig string, idx []int, desc s
 	}
 	repro, _ := json.Marshal(map[string]any{"type": typ, "values": vals})
 	human := map[string]any{"operands": strings.Join(hs, "  |  "), "repro": string(repro), "signature": defaultSig}
-	if typ != "triple" {
+	if typ != "triple" && (r.ovPos == nil || typ != "pair") {
 		human["observed"] = desc
 	}
 	r.sum.Cases[fmt.Sprint(id)] = human
@@ -1011,8 +1195,18 @@ func (r *c14Run) memCase(i, j int) {
 	}
 }
 
+func (r *c14Run) mem2Variant(i, j, k int, ra, rb, rc string, eq [][]string) {
+	r.ovPos = []*c14CV{r.pool[i].withRepr(ra, 0), r.pool[j].withRepr(rb, 0), r.pool[k].withRepr(rc, 0)}
+	r.sum.Count("variant_mem", "x ~ [y,z] in other representations")
+	r.mem2Case(i, j, k, eq)
+	r.ovPos = nil
+}
+
 func (r *c14Run) mem2Case(i, j, k int, eq [][]string) {
 	a, b, c := r.pool[i], r.pool[j], r.pool[k]
+	if len(r.ovPos) == 3 {
+		a, b, c = r.ovPos[0], r.ovPos[1], r.ovPos[2]
+	}
 	o := c14ObsBool(evalExpr("a~[b,c]", c14ABC, a.Build(), b.Build(), c.Build()))
 	id := r.nextID()
 	r.sum.Evaluations++
@@ -1213,6 +1407,29 @@ func cmdC14(seed int64, tier, outDir string) {
 	for _, e := range c14CuratedPool() {
 		addPool(e.v, e.core || tier == "thorough" && e.v.Depth() == 0)
 	}
+	// opponents for the phantom keys of the replace representations: same size, one key swapped for the phantom
+	type oppPair struct{ opp, m int }
+	var opps []oppPair
+	nOpp := 0
+	for m := 0; m < len(pool) && nOpp < 14; m++ {
+		v := pool[m]
+		if v.Kind != "map" || len(v.Keys) == 0 || strings.Contains(v.Human(), "closure") || strings.Contains(v.Human(), "NaN") {
+			continue
+		}
+		for _, k := range []int{len(v.Keys) - 1, 0} {
+			o := v.phantomOpponent(k)
+			before := len(pool)
+			addPool(o, false)
+			if len(pool) > before {
+				opps = append(opps, oppPair{before, m})
+				nOpp++
+			}
+			if len(v.Keys) == 1 {
+				break
+			}
+		}
+	}
+	sum.Extra["phantom_opponents"] = len(opps)
 	sum.Extra["curated_pool_size"] = len(pool)
 	nRandom := 14 * optBoost
 	if tier == "thorough" {
@@ -1263,14 +1480,14 @@ func cmdC14(seed int64, tier, outDir string) {
 	for i, v := range pool {
 		if i < sum.Extra["curated_pool_size"].(int) && v.hasListWithin(0) && !strings.Contains(v.Human(), "closure") {
 			withLists = append(withLists, i)
-			if len(coreLists) < 9 && i >= len(corpus) && (v.Depth() >= 2 || len(v.Items) >= 1) && i%2 == 0 {
+			if len(coreLists) < 4 && i >= len(corpus) && (v.Depth() >= 2 || len(v.Items) >= 1) && i%2 == 0 {
 				coreLists = append(coreLists, i)
 			}
 		}
 	}
 	sum.Extra["values_with_lists"] = len(withLists)
 	sum.Extra["list_representations"] = len(reprs)
-	nPer, nDiff := 40*optBoost, 2
+	nPer, nDiff := 12*optBoost, 1
 	if tier == "thorough" {
 		coreLists = withLists
 		nPer, nDiff = 0, 12
@@ -1309,13 +1526,116 @@ func cmdC14(seed int64, tier, outDir string) {
 		}
 		for _, rb := range reprs {
 			for _, i := range withLists {
-				if i == j || rg.Chance(0.25) {
+				if i == j || rg.Chance(0.08) {
 					run.memVariant(i, j, reprs[rg.Pick(len(reprs))], rb)
 				}
 			}
-			for t := 0; t < 4; t++ {
-				run.memVariant(rg.Pick(n), j, "eager", rb)
+			run.memVariant(rg.Pick(n), j, "eager", rb)
+		}
+	}
+	// ---- lists as un-evaluated lazy pipelines (size-claiming stages: skip/top with n in {-2,-1,0,size,size+1},
+	// map, number, iir, accept, compact, reverse, + on top), each against the literal list, a sized lazy list and a
+	// differently built pipeline, both directions, fresh per comparison
+	pipes := c14PipelineReprs()
+	allL := append(append([]string{}, reprs...), pipes...)
+	for _, rp := range pipes {
+		for _, items := range [][]value.Value{{}, {value.Int(1)}, {value.Int(1), value.Int(2), value.Int(3)}} {
+			l := c14BuildList(rp, items).(*value.List)
+			hint, known := l.SizeIfKnown()
+			state := fmt.Sprintf("present=%v sizeKnown=%v", value.VerifItemsPresent(l), known)
+			if known {
+				if n, err := l.Size(st0); err == nil {
+					state += fmt.Sprintf(" hintExact=%v", n == hint)
+				}
 			}
+			sum.Count("pipeline_state", state)
+			sum.Count("list_state:"+rp, state)
+		}
+	}
+	sum.Extra["list_pipelines"] = len(pipes)
+	for _, i := range withLists {
+		for _, rp := range pipes {
+			run.pairVariant(i, i, rp, "eager", lt, eq)
+			if tier == "thorough" || rg.Chance(0.3) {
+				run.pairVariant(i, i, rp, "lazy", lt, eq)
+			}
+			if tier == "thorough" || rg.Chance(0.5) {
+				run.pairVariant(i, i, rp, allL[rg.Pick(len(allL))], lt, eq)
+			}
+		}
+	}
+	for x, i := range withLists {
+		for _, j := range withLists[x+1:] {
+			run.pairVariant(i, j, pipes[rg.Pick(len(pipes))], allL[rg.Pick(len(allL))], lt, eq)
+		}
+	}
+	for _, j := range withLists {
+		if pool[j].Kind != "list" {
+			continue
+		}
+		for _, rp := range pipes {
+			run.memVariant(j, j, allL[rg.Pick(len(allL))], rp)
+			if tier == "thorough" || rg.Chance(0.3) {
+				run.memVariant(withLists[rg.Pick(len(withLists))], j, pipes[rg.Pick(len(pipes))], rp)
+				run.memVariant(rg.Pick(n), j, "eager", rp)
+			}
+		}
+	}
+	// ---- maps in every storage representation (down to depth 2): listmap, Go map, put / put chain (AppendMap),
+	// + (MergeMap), replace (ReplaceMap: partly / fully replaced, nested twice, ten times = flattened; the replacement
+	// maps carry phantom keys the original does not have), funcMap, eval; same abstract value representation x
+	// representation, different values, and the phantom-key opponents against every representation, both directions
+	var mreprs []string
+	for _, mr := range c14MapReprs {
+		mreprs = append(mreprs, "m="+mr)
+	}
+	var withMaps []int
+	for i, v := range pool {
+		if i < sum.Extra["curated_pool_size"].(int) && v.hasMapWithin(0) && !strings.Contains(v.Human(), "closure") {
+			withMaps = append(withMaps, i)
+		}
+	}
+	sum.Extra["values_with_maps"] = len(withMaps)
+	sum.Extra["map_representations"] = len(mreprs)
+	for _, i := range withMaps {
+		for _, ma := range mreprs {
+			for _, mb := range mreprs {
+				if tier == "thorough" || ma == "m=listmap" || mb == "m=listmap" || rg.Chance(0.12) {
+					run.pairVariant(i, i, ma, mb, lt, eq)
+				}
+			}
+		}
+	}
+	for _, o := range opps {
+		for _, mb := range mreprs {
+			run.pairVariant(o.opp, o.m, "m=listmap", mb, lt, eq)
+			run.pairVariant(o.opp, o.m, mreprs[rg.Pick(len(mreprs))], mb, lt, eq)
+			sum.Count("variant_pairs", "phantom-key opponent")
+		}
+	}
+	for x, i := range withMaps {
+		for _, j := range withMaps[x+1:] {
+			run.pairVariant(i, j, mreprs[rg.Pick(len(mreprs))], mreprs[rg.Pick(len(mreprs))], lt, eq)
+		}
+	}
+	// x ~ [.., m, ..] and switch-like membership with the maps inside the list in every representation
+	for _, j := range withMaps {
+		if pool[j].Kind != "list" {
+			continue
+		}
+		for _, mb := range mreprs {
+			for _, i := range withMaps {
+				if pool[i].Kind == "map" && rg.Chance(0.25) {
+					run.memVariant(i, j, "m=listmap", mb)
+				}
+			}
+		}
+	}
+	for _, o := range opps {
+		for _, mb := range mreprs {
+			other := withMaps[rg.Pick(len(withMaps))]
+			run.mem2Variant(o.opp, other, o.m, "m=listmap", mreprs[rg.Pick(len(mreprs))], mb, eq)
+			run.mem2Variant(o.m, o.opp, o.m, mb, "m=listmap", mreprs[rg.Pick(len(mreprs))], eq)
 		}
 	}
 	// triples: exhaustive over the core subset, random over the whole pool
